@@ -2,7 +2,7 @@
    Statements only; every proof is [exact <lemma>]. *)
 From Coq Require Import List ZArith Bool Arith.
 Import ListNotations.
-From SAV.orm Require Import SessTxn SessTxnSpec SessTxnSM SessTxnRefuted.
+From SAV.orm Require Import SessTxn SessTxnSpec SessTxnSM SessTxnRefuted SessTxnInv SessTxnCore SessTxnMain SessTxnLaws.
 
 (* ---- state_machine_closed: for EVERY history (no guard), every operation
    - never ends in IllegalStateChangeError (each decorated method ends in the state it declares),
@@ -50,3 +50,51 @@ Theorem c33_session_agrees_with_db_after_each_boundary_refuted : forall ps, In p
   first_unguarded (sess0 true) ps 0 <> None.
 Proof. exact agreement_refuted. Qed.
 Print Assumptions c33_session_agrees_with_db_after_each_boundary_refuted.
+
+(* ---- session_agrees_with_db_after_each_boundary, GUARDED: for EVERY history whose operations pass
+   the guard (SessTxnSpec.guard: outside the five defective regions g1 g2 g3 g5 g6, object operations not
+   while a failed flush waits for its rollback) and stay inside the model:
+   after EVERY operation - not only at the boundaries - every persistent object has its row in the
+   transaction's view of the database and its loaded, unmodified attribute values equal that row, and no
+   object is in the deleted state while its row exists ([agrees]); after every successful
+   Session.commit / Session.rollback / handle.commit / handle.rollback nothing is pending, modified or
+   marked for deletion *)
+Theorem c33_session_agrees_with_db_after_each_boundary_guarded : forall e st p r st',
+  GReach e st -> guard st p = true -> do_op p st = (r, st') -> r <> Unmodelled ->
+  agrees st' = true /\
+  (is_boundary p = true -> r = Ok -> is_clean st' = true /\ no_pending st' = true).
+Proof. exact agreement_guarded. Qed.
+Print Assumptions c33_session_agrees_with_db_after_each_boundary_guarded.
+
+(* the invariant behind it (objects vs rows, every open transaction vs its snapshot, the savepoint stack
+   of the database vs the stack of transactions) holds in every state of a guarded history *)
+Theorem c33_guarded_histories_keep_the_invariant : forall e st, GReach e st -> Inv st.
+Proof. exact greach_inv. Qed.
+Print Assumptions c33_guarded_histories_keep_the_invariant.
+
+(* ---- outer_commits_eq_nested_reference, the part that is proven (for guarded histories):
+   (a) the rows other connections see change only when the outermost transaction is committed: by
+       Session.commit() - or by a handle.commit() that leaves no transaction open, which cannot happen for
+       begin_nested handles (not proven, hence the disjunct);
+   (b) a successful Session.commit() publishes exactly the rows the session's own connection sees, and no
+       transaction and no savepoint survives it;
+   (c) Session.rollback() always succeeds, restores the committed rows on the connection and leaves
+       neither transaction nor savepoint;
+   (d) in every state the savepoint stack of the database (engine/RefDb.v snapshot-stack semantics, the
+       commands are transcribed in SessTxn.v) is exactly the list of the session's live begin_nested
+       transactions that hold a connection, innermost first: SAVEPOINT / RELEASE / ROLLBACK TO keep the
+       two stacks in step.
+   Not proven here: that the rows written by a flush are exactly the pending object changes (the value
+   side of the nested-transaction reference semantics); that is compared on the implementation after
+   every operation (specs/c33.py oracle: commit / release / rollback laws on the user-visible table). *)
+Theorem c33_outer_commits_eq_nested_reference_partial :
+  (forall e st p r st', GReach e st -> guard st p = true -> do_op p st = (r, st') -> r <> Unmodelled -> p <> OCommit ->
+     committed st' = committed st \/ (exists h, p = OTCommit h /\ r = Ok /\ stack st' = [])) /\
+  (forall e st r st', GReach e st -> guard st OCommit = true -> do_op OCommit st = (r, st') -> r = Ok ->
+     stack st' = [] /\ saves st' = [] /\ committed st' = work st' /\ is_clean st' = true) /\
+  (forall e st, GReach e st ->
+     exists st', do_op ORollback st = (Ok, st') /\ stack st' = [] /\ saves st' = [] /\
+       committed st' = committed st /\ work st' = committed st /\ is_clean st' = true) /\
+  (forall e st, GReach e st -> map fst (saves st) = map fid (filter live_conn (stack st))).
+Proof. exact db_laws. Qed.
+Print Assumptions c33_outer_commits_eq_nested_reference_partial.
